@@ -39,7 +39,7 @@ def build_factory(cfg):
         LogicalClock.t = 0.0
         tsmod.time = LogicalClock
         R = cfg["R"]
-        sched, info = scheds.make(cfg["kind"], mode=cfg["mode"], seed=cfg["seed"], R=R, mra=True)
+        sched, info = scheds.make(cfg["kind"], mode=cfg["mode"], seed=cfg["seed"], R=R, mra=cfg.get("mra", True))
         inj = cfg.get("inject")
         if inj:
             meth, j = inj
@@ -126,6 +126,7 @@ def configs(tier, seed):
                         cfg = dict(kind=kind, W=W, R=3, mode=mode, seed=seed, profile=prof, stop=stop, wait=wait,
                                    k=1 if tier == "quick" else 2, F=1 if pi % 2 else 0, max_failures=pi % 2 * (ci % 2),
                                    max_exec=150 if tier == "quick" else 3000)
+                        cfg["mra"] = (pi + ci) % 3 != 0
                         cfg["async"] = not (W == 2 and (pi + ci) % 4 == 1)
                         out.append(cfg)
     # injected scheduler exceptions at every call index up to the horizon
